@@ -44,7 +44,10 @@ def place_demo(d, demo_src, append, test):
 
 def guess_placement(notes):
     m = re.search(r'(tests/[\w\-]+\.rs)', notes)
-    a = re.search(r'(?:>>|append\w*(?: it)?(?: to)?(?: the end of)?)\s*`?(src/[\w/]+\.rs)', notes)
+    a = re.search(r'(?:>>|append\w*(?: it| them)?(?: verbatim)?(?: to| at)?(?: the)?(?: very)?(?: end| bottom)?(?: of)?(?: the file)?)\s*\**`?(src/[\w/]+\.rs)', notes)
+    if not a:
+        # "append ... to `src/x.rs`" with other words in between (same sentence)
+        a = re.search(r'append[^\n.]{0,80}?`(src/[\w/]+\.rs)`', notes, re.I)
     if a: return a.group(1), None
     if m: return None, m.group(1)
     return None, None
